@@ -99,7 +99,18 @@ func genSubset(t *rt.Tape, pool []string, lo, hi int, label string) []string {
 }
 
 func genArchList(t *rt.Tape, label string) []mArch {
-	switch t.Weighted([]int{3, 2, 2, 2}, label) {
+	switch t.Weighted([]int{3, 2, 2, 2, 2}, label) {
+	case 4: // names with one, two and three parts next to each other
+		out := []mArch{}
+		for _, i := range t.Perm(len(archStock), label+".pm")[:t.Range(2, 4, label+".nm")] {
+			if archStock[i].Text != "any" && archStock[i].Text != "all" {
+				out = append(out, archStock[i])
+			}
+		}
+		if len(out) > 0 {
+			return out
+		}
+		return []mArch{archStock[0]}
 	case 0:
 		return []mArch{archStock[4]} // any
 	case 1:
